@@ -308,10 +308,8 @@ fn gen_pathological(rng: &mut Rng, thorough: bool) -> String {
             }
         },
         _ => {
-            // (not scaled up in the thorough tier: html5ever looks the whole name up again after
-            // every character, so the cost is quadratic — 40 s for 400 000 letters)
             out.push_str("&");
-            for _ in 0..rng.range(100, 100_000) {
+            for _ in 0..rng.range(100, 100_000 * scale) {
                 out.push('a');
             }
         },
